@@ -1,5 +1,5 @@
 (* C14/Witness.v — non-vacuity of the hypotheses, concrete evaluations, the refutation witnesses. *)
-From Verif Require Import Common.Base Generated.C14Opaque C14.Model C14.Proofs.
+From Verif Require Import Common.Base Generated.C14Opaque C14.Model C14.Proofs C14.UseModel C14.UseProofs.
 From Coq Require Import String Ascii.
 Local Open Scope string_scope.
 
@@ -84,4 +84,20 @@ Proof. vm_compute. repeat split. Qed.
 Example ex_expand : plain_ctx UExpScalar = true /\ plain_ctx (UExpPtr YStr) = true /\
   unmarshal opaque UExpScalar "987654321" = Stored "987654321" /\ unmarshal opaque UExpMapVal "null" = Stored "null" /\
   unmarshal opaque (UExpPtr YOther) "987654321" = DecodeError.
+Proof. vm_compute. repeat split. Qed.
+
+(* the header paths: hypotheses satisfiable, concrete wire contents *)
+Definition cfg_ex : hdrs := [("x-signature-bin", "s3cr3t"); ("Authorization", "Bearer t0k"); ("Host", "h0st")].
+Example ex_http : NoDup (ckeys cfg_ex) /\ NoDup (lkeys cfg_ex) /\
+  http_client_roundtrip cfg_ex "127.0.0.1:1" [("Authorization", "old")]
+  = ("h0st", [("Authorization", "Bearer t0k"); ("X-Signature-Bin", "s3cr3t"); ("Host", "h0st")]).
+Proof.
+  split; [|split]; try (vm_compute; reflexivity);
+    repeat (constructor; [simpl; intuition discriminate|]); constructor.
+Qed.
+Example ex_grpc : grpc_add_headers cfg_ex [("authorization", ["caller"])]
+  = [("authorization", ["caller"]); ("x-signature-bin", ["s3cr3t"]); ("host", ["h0st"])].
+Proof. vm_compute. reflexivity. Qed.
+Example ex_tls : load_certificate (TlsCfg "" "CERT" "" "KEY") = TlsPair (FromPem "CERT") (FromPem "KEY")
+  /\ load_certificate (TlsCfg "f" "CERT" "" "KEY") = TlsErrCertTwice /\ load_certificate (TlsCfg "" "CERT" "" "") = TlsErrBothOrNeither.
 Proof. vm_compute. repeat split. Qed.
